@@ -26,7 +26,7 @@ def run(ctx):
            extra=["-dump", "dot,actionlabels", dot])
     g = walk.load(dot)
     os.remove(dot)
-    ws, cov, tot = walk.edge_cover(g, maxlen=ctx.pick(40, 60), seed=ctx.seed, limit=ctx.pick(110, None))
+    ws, cov, tot = walk.edge_cover(g, maxlen=ctx.pick(40, 60), seed=ctx.seed, limit=ctx.pick(110, 800))
     runs = []
     # every sequence of 3 (thorough 4) edits over the edits that touch the one field living both in the defaults
     # and in a path (a value pinned to what it inherits, then the default moves ...): ApiEditsSeq.tla
